@@ -47,7 +47,8 @@ fn k07_phase_gating() {
     let k0: u8 = kani::any();
     let k1: u8 = kani::any();
     kani::assume(k0 < 5 && k1 < 5);
-    let mut diagnostics = Diagnostics(Vec::with_capacity(3));
+    // only the public API is used to build and observe the state, so a change of Diagnostics' representation is followed
+    let mut diagnostics = Diagnostics::new();
     diag_of(k0).push_into(&mut diagnostics);
     diag_of(k1).push_into(&mut diagnostics);
     let any_error = k0 < 2 || k1 < 2;
@@ -59,13 +60,17 @@ fn k07_phase_gating() {
     } else {
         state.apply(phase);
     }
-    let ran = state.diagnostics.0.len() == 3;
+    let CompilationState { ast, diagnostics, files } = state;
+    let after = diagnostics.into_inner();
+    let ran = after.len() == 3;
     kani::cover!(!any_error, "two lints, phase runs reachable");
     kani::cover!(k1 < 2 && k0 >= 2, "error recorded last reachable");
-    kani::cover!(k0 < 2 && k1 >= 2 && via_unsafe, "error recorded first, apply_unsafe reachable");
+    kani::cover!(k0 < 2 && k1 >= 2 && via_unsafe, "error recorded first (a lint after it), apply_unsafe reachable");
     assert!(ran == !any_error, "a later phase runs exactly when no error was recorded so far");
-    assert!(ran || state.diagnostics.0.len() == 2, "a skipped phase leaves the diagnostics untouched");
-    core::mem::forget(state);
+    assert!(ran || after.len() == 2, "a skipped phase leaves the diagnostics untouched");
+    core::mem::forget(after);
+    core::mem::forget(ast);
+    core::mem::forget(files);
 }
 
 //@ prop: C07
@@ -83,8 +88,8 @@ fn k07_totals() {
     let kinds: [u8; 3] = kani::any();
     kani::assume(kinds[0] < 5 && kinds[1] < 5 && kinds[2] < 5);
     let allowed: [bool; 3] = kani::any();
-    let mut a = Diagnostics(Vec::with_capacity(3));
-    let mut b = Diagnostics(Vec::with_capacity(3));
+    let mut a = Diagnostics::new();
+    let mut b = Diagnostics::new();
     let (mut errs, mut warns) = (0usize, 0usize);
     let mut i = 0;
     while i < 3 {
